@@ -29,10 +29,13 @@ CLAIM = dict(
          "shape/dtype/flags) before/after and called again on the same objects; static and dynamic verdicts must agree per function and parameter.",
     design='DESIGN.md section 4, C19; section 2.4(b)',
     technique='Coq proof (sound points-to/effect analysis) over a model regenerated from the source by an ast translator + dynamic snapshot check',
-    note="Trusted for C19 in addition: translate/effects2v.py and its tables (which library calls/methods modify their receiver, which return views, "
-         "parameters documented as numbers are immutable); user callbacks, networkx/numpy/scipy functions and Simulation_Investigation are assumed "
-         "not to modify their arguments; methods of the classes myQueue/_ListDict_ are modelled by the tables, not translated; reading a caller's "
-         "defaultdict (which inserts keys) is deliberately not an alarm (DESIGN C19).")
+    note="The translator translate/effects2v.py is CHECKED on every run (harness/c19_tables.py): each of its 292 table entries (which library calls/methods "
+         "modify their receiver, which return views or aliases, which allocate) is called on the installed numpy/networkx/scipy/builtins over ~45 representative "
+         "receivers/arguments x 13 semantics-changing keywords and the heap reachable from the arguments is compared before/after with the category's claim; its statement "
+         "mapping is judged by a differential corpus of 186 functions (a function the checker accepts must really modify nothing); 40 fail-closed probes. Still assumed: "
+         "parameters documented as numbers/strings are immutable scalars, user callbacks do not modify their arguments, object-dtype arrays are out of scope; methods of the "
+         "classes myQueue/_ListDict_ are modelled by the tables (and validated the same way), not translated; reading a caller's defaultdict (which inserts keys) is "
+         "deliberately not an alarm (DESIGN C19).")
 
 PROPOSED = os.path.join(C.VERIF, 'proposed_known_findings.json')
 TRANSLATOR = os.path.join(C.VERIF, 'translate', 'effects2v.py')
